@@ -10,6 +10,7 @@ import (
 	log "github.com/sirupsen/logrus"
 	"go.amzn.com/lambda/core"
 	"go.amzn.com/lambda/rapi/rendering"
+	"go.amzn.com/lambda/verifhook"
 )
 
 // A CtxKey type is used as a key for storing values in the request context.
@@ -52,6 +53,7 @@ func (h *agentNextHandler) ServeHTTP(writer http.ResponseWriter, request *http.R
 		return
 	}
 
+	verifhook.Point("agentNext.released")
 	if err := h.renderingService.RenderAgentEvent(writer, request); err != nil {
 		log.Error(err)
 		rendering.RenderInternalServerError(writer, request)
